@@ -82,7 +82,7 @@ func runC15(c *Check) {
 	// W: constant keys written outside ExecuteTxs
 	W := map[string]string{}
 	for _, fn := range []*ssa.Function{initc, final} {
-		g := BuildECFG(p, fn, ExpandOpts{MaxDepth: 1})
+		g := BuildECFG(p, fn, ExpandOpts{MaxDepth: 3})
 		c.NoteGraph(g)
 		for _, n := range g.Select(func(n *Node) bool { return dsCall(n, "Put") }) {
 			k := keyName(ArgTerm(n, 1))
@@ -361,7 +361,7 @@ func runC15(c *Check) {
 	// region itself writes (a marker). A test on a stored value is not a marker: the genesis
 	// state root of an empty chain is the empty string.
 	{
-		g := BuildECFG(p, initc, ExpandOpts{MaxDepth: 0})
+		g := BuildECFG(p, initc, ExpandOpts{MaxDepth: 3})
 		c.NoteGraph(g)
 		puts := g.Select(func(n *Node) bool { return dsCall(n, "Put") })
 		written := map[string]bool{}
